@@ -200,7 +200,36 @@ def gen_T04():
         replaces = False
     else:
         need(False, 'Irc.doNick: unknown way of moving the login: %r' % acts[0])
+    # ---- the caches: size, eviction rule, tolerant removal of the other half of an entry
+    init = _method(ud, '__init__')
+    sizes = [ast.unparse(x.value) for x in init.body if isinstance(x, ast.Assign) and ast.unparse(x.targets[0]) in ('self._nameCache', 'self._hostmaskCache')]
+    need(sizes == ['utils.structures.CacheDict(1000)', 'utils.structures.CacheDict(1000)'] or len(set(sizes)) == 1 and len(sizes) == 2
+         and sizes[0].startswith('utils.structures.CacheDict(') and sizes[0][len('utils.structures.CacheDict('):-1].isdigit(),
+         'UsersDictionary.__init__: cache sizes changed: %r' % sizes)
+    cache_max = int(sizes[0][len('utils.structures.CacheDict('):-1])
+    need(cache_max >= 4, 'cache size too small for the model')
+    cd = find_class(tree('src/utils/structures.py'), 'CacheDict')
+    need([ast.unparse(x) for x in _method(cd, '__setitem__').body] == ['if len(self.d) >= self.max:\n    self.d.clear()', 'self.d[key] = value'],
+         'CacheDict.__setitem__ changed')
+    icb = [x for x in _method(ud, 'invalidateCache').body if isinstance(x, ast.If) and ast.unparse(x.test) == 'id is not None']
+    need(len(icb) == 1, 'invalidateCache: no `if id is not None` block')
+    ic = [ast.unparse(x) for x in ast.walk(icb[0]) if isinstance(x, (ast.For, ast.Expr, ast.Delete))]
+    need('for hostmask in self._hostmaskCache[id]:\n    self._hostmaskCache.pop(hostmask, None)' in ic
+         and 'self._nameCache.pop(self._nameCache[id], None)' in ic and 'del self._hostmaskCache[id]' in ic and 'del self._nameCache[id]' in ic
+         and 'del self._hostmaskCache[hostmask]' not in ic and 'del self._nameCache[self._nameCache[id]]' not in ic,
+         'invalidateCache(id): the other half of a cache entry must be removed with pop(key, None): %r' % ic)
+    du = ast.unparse(_method(ud, 'delUser'))
+    need('self._hostmaskCache.pop(hostmask, None)' in du and 'self._nameCache.pop(self._nameCache[id], None)' in du
+         and 'del self._hostmaskCache[hostmask]' not in du, 'delUser: the other half of a cache entry must be removed with pop(key, None)')
+    # ---- src/ircutils.py: the matcher is compiled case-insensitively for ASCII letters only
+    iu = tree('src/ircutils.py')
+    pe = [n for n in iu.body if isinstance(n, ast.FunctionDef) and n.name == '_hostmaskPatternEqual']
+    need(len(pe) == 1, 'no ircutils._hostmaskPatternEqual')
+    comp = [ast.unparse(n) for n in ast.walk(pe[0]) if isinstance(n, ast.Call) and ast.unparse(n.func) == 're.compile']
+    need(comp == ['re.compile(fd.getvalue(), re.I | re.A)'], '_hostmaskPatternEqual: regexp flags changed (model: ASCII-only case folding): %r' % comp)
     out = 'Require Import Base.Wire.\n'
+    out += '(* utils.structures.CacheDict(n) of UsersDictionary._hostmaskCache / _nameCache *)\n'
+    out += 'Definition CACHE_MAX : N := %d.\n' % cache_max
     out += '(* Irc.doNick, following an identification through a nick change: the (when, old hostmask) entry of user.auth is\n'
     out += '   replaced in place by (when, new hostmask) [true], or the new entry is appended and the old one kept [false] *)\n'
     out += 'Definition NICK_FOLLOW_REPLACES : bool := %s.\n' % cbool(replaces)
@@ -215,4 +244,4 @@ def gen_T04():
     out += 'Definition HM_ADD_GUARDED : bool := %s.\n' % cbool(g)
     out += _emit('IDENTIFY_HANDLERS', id_h) + _emit('UNIDENTIFY_HANDLERS', un_h) + _emit('CHANGENAME_HANDLERS', cn_h)
     out += _emit('REMOVE_HANDLERS', rm_h) + _emit('REGISTER_HANDLERS', rg_h) + _emit('SECURE_HANDLERS', sc_h)
-    return 'plugins/User/plugin.py, src/ircdb.py, src/irclib.py', out
+    return 'plugins/User/plugin.py, src/ircdb.py, src/irclib.py, src/ircutils.py, src/utils/structures.py', out
